@@ -177,12 +177,32 @@ Definition check_gen_in_box (cs : building F * boxcase * bool) : bool :=
   | None => false
   end.
 
+(* ---------------------------------------------------------------- distance in parameter space *)
+
+Definition sub_gap (p : building F) (Tlo Thi : float) (s : sub) : float :=
+  let (c, tc) := s in
+  match effective_x F c tc with
+  | Some x => param_gap F x (free_bp F p x) Tlo Thi
+  | None => nan
+  end.
+
+(* the largest gap over the sub-models of a fitted model (NaN if one does not evaluate) *)
+Definition fit_gap (p : building F) (Tlo Thi : float) (subs : list sub) : float :=
+  fold_right (fun s acc => let g := sub_gap p Tlo Thi s in
+                           if f_is_nan g then g else if f_is_nan acc then acc else fmax g acc) 0%float subs.
+
+(* (generator, stored sub-models, Tlo, Thi, the gap the harness computed from the implementation's own 7-vectors) *)
+Definition gapcase := (building F * list sub * float * float * float)%type.
+Definition check_gap (cs : gapcase) : bool :=
+  let '(p, subs, Tlo, Thi, sent) := cs in f_close6 (fit_gap p Tlo Thi subs) sent.
+
 (* one cases stream for everything harness/c15.py sends (a single coqc round per run) *)
 Inductive anycase :=
 | AFit (c : fitcase)
 | AFinalBox (c : boxcase)
 | AInitialBox (c : list float * list float * list frow)
-| AGenInBox (c : building F * boxcase * bool).
+| AGenInBox (c : building F * boxcase * bool)
+| AGap (c : gapcase).
 
 Definition check_any (a : anycase) : bool :=
   match a with
@@ -190,4 +210,5 @@ Definition check_any (a : anycase) : bool :=
   | AFinalBox c => check_final_box c
   | AInitialBox c => check_initial_box c
   | AGenInBox c => check_gen_in_box c
+  | AGap c => check_gap c
   end.
